@@ -76,6 +76,36 @@ func eff(p *tables.Promise, tau int64) *tables.Promise {
 	return &c
 }
 
+// timedOutBy reports whether one of the request's own transactions took the
+// promise out of pending by the time-out path.
+func timedOutBy(req *ReqRec, id string) bool {
+	for _, tr := range req.Txs {
+		if !tr.Committed || tr.Results == nil {
+			continue
+		}
+		for i, c := range tr.Tx.Commands {
+			if c.Kind == t_aio.UpdatePromise && c.UpdatePromise.Id == id && i < len(tr.Results) && tr.Results[i] != nil && tr.Results[i].UpdatePromise.RowsAffected == 1 {
+				return true
+			}
+		}
+	}
+	return false
+}
+
+// effFor applies an overdue time-out the way the specification does: the
+// operation that finds a pending promise overdue performs the completion
+// itself, so this reading is only available to a request whose own
+// transaction did so.
+func effFor(req *ReqRec, p *tables.Promise, tau int64) *tables.Promise {
+	if p == nil || p.State != 1 || p.Timeout > tau {
+		return p
+	}
+	if !timedOutBy(req, p.Id) {
+		return nil
+	}
+	return eff(p, tau)
+}
+
 func rowSig(p *tables.Promise) string { return rowCreationSig(p) + " " + rowCompletionSig(p) }
 func bodySig(p *promise.Promise) string {
 	if p == nil {
@@ -261,7 +291,7 @@ func (r *ruleState) specReadPromise(req *ReqRec, cands []cand, taus []int64) {
 			continue
 		}
 		for _, tau := range taus {
-			if rowSig(eff(row, tau)) == bodySig(res.Promise) {
+			if e := effFor(req, row, tau); e != nil && rowSig(e) == bodySig(res.Promise) {
 				return
 			}
 		}
@@ -342,7 +372,10 @@ func (r *ruleState) specCreatePromise(req *ReqRec, cands []cand, taus []int64) {
 			continue
 		}
 		for _, tau := range taus {
-			p := eff(row, tau)
+			p := effFor(req, row, tau)
+			if p == nil {
+				continue
+			}
 			want := t_api.StatusPromiseAlreadyExists
 			if keyMatch(p.IkCreate, cr.IdempotencyKey) && !(cr.Strict && p.State != 1) {
 				want = t_api.StatusOK
@@ -402,8 +435,8 @@ func (r *ruleState) specCompletePromise(req *ReqRec, cands []cand, taus []int64)
 			continue
 		}
 		for _, tau := range taus {
-			p := eff(row, tau)
-			if p.State == 1 {
+			p := effFor(req, row, tau)
+			if p == nil || p.State == 1 {
 				continue // a pending promise before its timeout is completed, not answered otherwise
 			}
 			var want t_api.StatusCode
